@@ -1,6 +1,7 @@
 SPECIFICATION Spec
 CONSTANTS
   GuardReserved = TRUE
+  GuardNul = TRUE
   UseEscapedPath = TRUE
   MaxOps = 2
   MaxSegs = 3
